@@ -105,14 +105,15 @@ def individuals : GTerm → List Guard → List (GTerm × Rel × GTerm)
   | _, [] => []
   | lhs, g :: gs => (lhs, g.rel, g.term) :: individuals g.term gs
 
+def definitionOk (v : Var) (x term : GTerm) : Bool :=
+  match x, term, v.sort with
+  | .var name, _, .general => v.name = name
+  | .int (.var name), .int _, .integer => v.name = name
+  | .symb (.var name), .symb _, .symbol => v.name = name
+  | _, _, _ => false
+
 def definitionCandidate (v : Var) (x term : GTerm) : Option GTerm :=
-  let ok : Bool :=
-    match x, term, v.sort with
-    | .var name, _, .general => v.name = name
-    | .int (.var name), .int _, .integer => v.name = name
-    | .symb (.var name), .symb _, .symbol => v.name = name
-    | _, _, _ => false
-  if ok && !(v ∈ term.vars) then some term else none
+  if definitionOk v x term && !(v ∈ term.vars) then some term else none
 
 def findDefinition (v : Var) : Formula → Option GTerm
   | .atomic (.cmp t gs) =>
@@ -257,7 +258,7 @@ def asEqCmp : Formula → Option Cmp
   | .atomic (.cmp t gs) => if equalityComparison gs then some (t, gs) else none
   | _ => none
 
-def enumerate {α} (xs : List α) : List (Nat × α) := (List.range xs.length).zip xs
+def enumerate {α} (xs : List α) : List (Nat × α) := indexFrom 0 xs
 
 /-- first `(i, j)` in the Rust iteration order for which `transitive_equality` answers;
     returns the second index, the two comparisons and the answer -/
